@@ -229,7 +229,10 @@ func c01worker(arg string) {
 			if strings.HasSuffix(init.name, "-expired-unpurged") && !thorough && init.name != "[x]-expired-unpurged" {
 				continue // quick tier: one start state with an expired, unpurged entry
 			}
-			if (strings.HasPrefix(init.name, "long-") || strings.HasPrefix(init.name, "large-") || strings.HasPrefix(init.name, "huge-")) && !thorough {
+			if strings.HasPrefix(init.name, "large-") || strings.HasPrefix(init.name, "huge-") {
+				continue // the very large start states are for C02's two-call programs (a Merge over 1100 elements has thousands of scheduling points)
+			}
+			if strings.HasPrefix(init.name, "long-") && !thorough {
 				continue
 			}
 			if strings.HasPrefix(init.name, "grown-") {
